@@ -54,7 +54,12 @@ class ArgFailure(PrimFailure):
         self.args = (f"invocation {k}",)
 
 
-def make_failure(k):
+def make_failure(k, level="runner"):
+    """Falsy exception objects only at runner level: at wrapper level the exception travels through
+    concurrent.futures.Future, whose result() tests `if self._exception:` - CPython itself loses a falsy exception there
+    (result() returns None); that is outside QUEASARS and stated as an assumption."""
+    if level != "runner":
+        return [PrimFailure(k), ArgFailure(k, {"invocation": k})][k % 2]
     return [PrimFailure(k), FalsyFailure(k), ArgFailure(k, {"invocation": k})][k % 3]
 
 
@@ -159,7 +164,7 @@ class Fake:
             # the primitive's run() raises at submission: no job object is ever returned
             self.events.append(("end", k))
             self.status[k] = False
-            e = self.exceptions[k] = make_failure(k)
+            e = self.exceptions[k] = make_failure(k, self.level)
             raise e
         self.in_use += 1
         if self.on_begin is not None:
@@ -196,7 +201,7 @@ class FakeJob:
         fk.events.append(("end", self.k))
         if fail is True:
             fk.status[self.k] = False
-            e = fk.exceptions[self.k] = make_failure(self.k)
+            e = fk.exceptions[self.k] = make_failure(self.k, fk.level)
             raise e
         fk.status[self.k] = True
         if fk.level == "runner":
@@ -1526,7 +1531,7 @@ def restore_real(mp=None):
     return mp
 
 
-def blackbox_stress(ctx, seconds=0.7):
+def blackbox_stress(ctx, seconds=0.45):
     """C07, no instrumentation at all: real threads, the real threading/dask locks, a fake primitive that sleeps a little
     and records whether two uses overlap.  Batching wrappers: use = from the start of run() until result() has been
     retrieved, callers with different shots / precision values.  Plain mutex wrappers: use = run(), all threads released
@@ -1952,7 +1957,7 @@ class SharedResourcePrimitive:
         return (SharedResourcePrimitive, ())
 
 
-def blackbox_copies(ctx, seconds=0.2):
+def blackbox_copies(ctx, seconds=0.12):
     """C07: MutexSampler/MutexEstimator pickled / cloudpickled / deep-copied several times into the SAME process (as dask
     does for its worker threads) and the copies used concurrently by different threads: on HEAD every copy carries the
     same SerializableLock token and therefore the same underlying lock, so exclusion holds across copies."""
